@@ -82,3 +82,10 @@ Example C13_nonvacuous :
   /\ decode 32 (h "2a39393939393939393939390d0a") = (Err eEOF, [], 640)           (* *99999999999\r\n *)
   /\ decode 32 (h "243f0d0a3b39393939393939393939390d0a61") = (Err eEOF, [], 65536).  (* $?\r\n;99999999999\r\na *)
 Proof. vm_compute. repeat split. Qed.
+
+(** non-vacuity of the allocation bound on the doubling schedule: a reply that declares 2^63-1 bytes and delivers
+    200 000: the buffer was allocated as 64 KiB, 128 KiB, 256 KiB (448 KiB for 200 022 bytes consumed), then EOF *)
+Example C13_nonvacuous_doubling :
+  decode 4096 (h "24393232333337323033363835343737353830370d0a" ++ rep_bytes [97] 200000)%list
+  = (Err eUnexpectedEOF, [], 458752).
+Proof. vm_compute. reflexivity. Qed.
